@@ -377,6 +377,17 @@ func (s *Session) Check(t TB, test string, c any, f *Failure) {
 		s.mu.Unlock()
 		return
 	}
+	if os.Getenv("VERIF_DISCOVER") != "" {
+		// discovery campaign (never used by registered checks): record every distinct key with one replay file and go on
+		s.mu.Lock()
+		first := s.excludedKnown["DISCOVERED "+f.Key] == 0
+		s.excludedKnown["DISCOVERED "+f.Key]++
+		s.mu.Unlock()
+		if first {
+			s.writeReplay(test, c, f)
+		}
+		return
+	}
 	p := s.writeReplay(test, c, f)
 	s.mu.Lock()
 	s.failN++
